@@ -126,6 +126,57 @@ func c06Marshal(c *Ctx, k c06Case, root any, cyclic bool) {
 	}
 }
 
+// hnode: the same heaps with typed nodes - pointers, slices of pointers, a map with a struct element type (the generic
+// map codec; map[string]any has a codec of its own) and an interface
+type hnode struct {
+	V int               `json:"v"`
+	P *hnode            `json:"p,omitempty"`
+	S []*hnode          `json:"s,omitempty"`
+	M map[string]*hnode `json:"m,omitempty"`
+	I any               `json:"i,omitempty"`
+}
+
+func buildTypedHeap(edges [][]any) []*hnode {
+	n := 0
+	for _, e := range edges {
+		for _, x := range []any{e[0], e[2]} {
+			if v := int(x.(float64)); v > n {
+				n = v
+			}
+		}
+	}
+	nodes := make([]*hnode, n+1)
+	for i := range nodes {
+		nodes[i] = &hnode{V: i}
+	}
+	for _, e := range edges {
+		a, k, b := int(e[0].(float64)), e[1].(string), int(e[2].(float64))
+		switch k {
+		case "ptr":
+			nodes[a].P = nodes[b]
+		case "slice":
+			nodes[a].S = append(nodes[a].S, nodes[b])
+		case "map":
+			if nodes[a].M == nil {
+				nodes[a].M = map[string]*hnode{}
+			}
+			nodes[a].M[fmt.Sprintf("k%d", len(nodes[a].M))] = nodes[b]
+		case "iface":
+			nodes[a].I = nodes[b]
+		}
+	}
+	return nodes
+}
+
+// deepen puts the heap below a chain of n pointers: the cycle detector only records what it visits from a depth of
+// 1000 on, so sharing without a cycle (and cycles) must be told apart there too
+func deepen(root *hnode, n int) *hnode {
+	for i := 0; i < n; i++ {
+		root = &hnode{V: -1, P: root}
+	}
+	return root
+}
+
 func c06Cycle(c *Ctx, v *cycleVec) {
 	nodes := buildHeap(v.Edges)
 	if len(nodes) < 2 {
@@ -133,6 +184,11 @@ func c06Cycle(c *Ctx, v *cycleVec) {
 	}
 	c.Case()
 	c06Marshal(c, c06Case{Kind: "heap", Edges: v.Edges, Cyclic: *v.Cyclic}, nodes[1], *v.Cyclic)
+	typed := buildTypedHeap(v.Edges)
+	c.Case()
+	c06Marshal(c, c06Case{Kind: "heap", Edges: v.Edges, Cyclic: *v.Cyclic}, typed[1], *v.Cyclic)
+	c.Case()
+	c06Marshal(c, c06Case{Kind: "heap", Edges: v.Edges, Cyclic: *v.Cyclic}, deepen(typed[1], 1001), *v.Cyclic)
 }
 
 // chains: a cycle (or a dead-end chain) of length n through one kind of reference
@@ -205,7 +261,27 @@ var c06Targets = map[string]func() any{
 	"any": func() any { return new(any) }, "raw": func() any { return new(json.RawMessage) }, "struct{}": func() any { return new(struct{}) },
 	"rec": func() any { return new(recNode) }, "[]any": func() any { return new([]any) }, "map": func() any { return new(map[string]any) },
 	"string": func() any { return new(string) }, "[0]int": func() any { return new([0]int) }, "int": func() any { return new(int) },
+	// every kind with a decoder of its own (the scalar decoders find the end of their token themselves)
+	"duration": func() any { return new(time.Duration) }, "time": func() any { return new(time.Time) }, "bytes": func() any { return new([]byte) },
+	"number": func() any { return new(json.Number) }, "float64": func() any { return new(float64) }, "bool": func() any { return new(bool) },
+	"uint8": func() any { return new(uint8) }, "text": func() any { return new(TMPtr) }, "unmarshaler": func() any { return new(MUBoth) },
+	"map[int]": func() any { return new(map[int]string) }, "map[text]": func() any { return new(map[TMK]int) }, "[2]string": func() any { return new([2]string) },
+	"[]duration": func() any { return new([]time.Duration) }, "map[string]duration": func() any { return new(map[string]time.Duration) },
+	"*duration": func() any { return new(*time.Duration) }, "**string": func() any { return new(**string) },
+	"struct(,string)": func() any {
+		return new(struct {
+			X int           `json:"x,string"`
+			A bool          `json:"a,string"`
+			B string        `json:"b,string"`
+			N json.Number   `json:"n,string"`
+			D time.Duration `json:"d"`
+			T time.Time     `json:"t"`
+			Y []byte        `json:"y"`
+		})
+	},
 }
+
+var c06Always = []string{"any", "rec", "string", "struct(,string)"}
 
 func c06Decode(c *Ctx, k c06Case, doc []byte) {
 	entry := func(name string, f func()) {
@@ -229,7 +305,13 @@ func c06Decode(c *Ctx, k c06Case, doc []byte) {
 	})
 	targets := []string{k.Target}
 	if k.Target == "" {
-		targets = sortedKeys(c06Targets)
+		// a few targets always, six of the others by the document
+		targets = append([]string(nil), c06Always...)
+		rest := sortedKeys(c06Targets)
+		r := newRng(int64(len(doc)), string(doc))
+		for n := 0; n < 6; n++ {
+			targets = append(targets, rest[r.intn(len(rest))])
+		}
 	}
 	for _, tn := range targets {
 		mk := c06Targets[tn]
